@@ -32,15 +32,83 @@ type GoFail struct {
 }
 
 type Set struct {
-	ID        string
-	Dir       string
-	Module    string // e.g. "LW.Corr.C11"
-	ShardSize int
-	Rule      string
-	Extra     map[string]interface{}
-	cases     []Case
-	fails     []GoFail
-	Exhaust   []string // names of domains enumerated completely
+	ID         string
+	Dir        string
+	Module     string // e.g. "LW.Corr.C11"
+	ShardSize  int
+	Rule       string
+	Extra      map[string]interface{}
+	cases      []Case
+	fails      []GoFail
+	Exhaust    []string // names of domains enumerated completely
+	remembered []remembered
+}
+
+type remembered struct {
+	key    string
+	first  string
+	replay map[string]interface{}
+	run    func() string
+}
+
+// Remember stores a call whose result `first` has been recorded as a case (and so is compared with
+// the model): run repeats exactly that call on freshly built arguments. ReplayRemembered repeats the
+// stored calls later in the same process, in another order and with other calls in between; the
+// library has no documented state, so every repetition must give `first` again.
+func (s *Set) Remember(key, first string, replay map[string]interface{}, run func() string) {
+	s.remembered = append(s.remembered, remembered{key, first, replay, run})
+}
+
+// ReplayRemembered runs `rounds` passes over the remembered calls. intn draws the order; between (may
+// be nil) is called before every repetition. A differing result is a Go-side failure "history:<key>".
+func (s *Set) ReplayRemembered(intn func(int) int, rounds int, between func()) {
+	n := len(s.remembered)
+	reported := map[string]bool{}
+	count := 0
+	for round := 0; round < rounds; round++ {
+		order := make([]int, n)
+		for i := range order {
+			order[i] = i
+		}
+		switch round % 3 {
+		case 0: // reverse order: every call now runs after the calls that followed it the first time
+			for i, j := 0, n-1; i < j; i, j = i+1, j-1 {
+				order[i], order[j] = order[j], order[i]
+			}
+		case 1: // same order once more: every call right after its old predecessor, but with all state warmed up
+		default:
+			for i := n - 1; i > 0; i-- {
+				j := intn(i + 1)
+				order[i], order[j] = order[j], order[i]
+			}
+		}
+		prev := "(start of pass)"
+		for _, i := range order {
+			m := s.remembered[i]
+			if between != nil {
+				between()
+			}
+			Begin("repeat:"+m.key, m.replay)
+			got := m.run()
+			End()
+			count++
+			if got != m.first && !reported[m.key] {
+				reported[m.key] = true
+				rp := map[string]interface{}{"call": m.replay, "first_result": clip(m.first), "later_result": clip(got), "previous_call": prev, "pass": round}
+				s.Fail(GoFail{Key: "history:" + m.key, What: "the same call on the same arguments gave a different result later in the same process", Replay: rp})
+			}
+			prev = m.key
+		}
+	}
+	s.Extra["repeated_calls"] = count
+	s.Extra["repeated_calls_rule"] = "every remembered call repeated in reverse, original and shuffled order with unrelated library calls in between; result must equal the first (model-compared) result"
+}
+
+func clip(x string) string {
+	if len(x) > 400 {
+		return x[:400] + "…"
+	}
+	return x
 }
 
 // ---- watchdog: an implementation call that does not return is a finding, not a stuck check ----
